@@ -1,4 +1,9 @@
 // simworker runs simulated executions: one OS process, many seeds.
+//
+//	simworker -profile P -from S -stride K -n N      run seeds S, S+K, ... (N of them)
+//	simworker -replay file.json                      re-run a replay file, exit 1 if the violation reproduces, 3 if not
+//	simworker -runplan plan.json                     run one plan, print its outcome
+//	simworker -minimise file.json -out min.json      shrink the plan of a replay file
 package main
 
 import (
@@ -6,34 +11,294 @@ import (
 	"flag"
 	"fmt"
 	"os"
+	"os/signal"
+	"runtime"
+	"sort"
+	"strings"
+	"crypto/sha256"
+	"encoding/hex"
+	"syscall"
+	"time"
 
 	"gosim/rng"
 	"gosim/sim"
 )
 
+type summary struct {
+	Type        string            `json:"type"`
+	Profile     string            `json:"profile"`
+	Runs        int               `json:"runs"`
+	Nontrivial  int               `json:"nontrivial"`
+	Digests     []string          `json:"digests"` // of non-trivial runs
+	Steps       uint64            `json:"steps"`
+	FakeNS      int64             `json:"fake_ns"`
+	Reasons     map[string]int    `json:"reasons"`
+	FaultKinds  map[string]int    `json:"fault_kinds"`
+	Probes      map[string]int    `json:"probes"`
+	Extra       map[string]int    `json:"extra"`
+	Leaked      int               `json:"leaked"`
+	Samples     []json.RawMessage `json:"samples"`
+	WallS       float64           `json:"wall_s"`
+	Violations  int               `json:"violations"`
+	FirstSeed   uint64            `json:"first_seed"`
+	LastSeed    uint64            `json:"last_seed"`
+	AllDigest   string            `json:"all_digest"`
+	Known       map[string]int    `json:"known"`
+}
+
+type knownFinding struct{ prop, oracle, match string }
+
+func loadKnown(path string) []knownFinding {
+	var ks []knownFinding
+	b, err := os.ReadFile(path)
+	if err != nil {
+		return nil
+	}
+	for _, line := range strings.Split(string(b), "\n") {
+		line = strings.TrimSpace(line)
+		if !strings.HasPrefix(line, "known:") {
+			continue
+		}
+		if i := strings.Index(line, " # "); i >= 0 {
+			line = line[:i]
+		}
+		var k knownFinding
+		for _, f := range strings.Fields(line[6:]) {
+			switch {
+			case strings.HasPrefix(f, "property="):
+				k.prop = f[9:]
+			case strings.HasPrefix(f, "oracle="):
+				k.oracle = f[7:]
+			case strings.HasPrefix(f, "match="):
+				k.match = strings.ReplaceAll(f[6:], "_", " ")
+			}
+		}
+		ks = append(ks, k)
+	}
+	return ks
+}
+
+// ReplayFile is what is written under replays/.
+type ReplayFile struct {
+	Property  string         `json:"property"`
+	Profile   string         `json:"profile"`
+	Seed      uint64         `json:"seed"`
+	Plan      *sim.Plan      `json:"plan"`
+	Violation sim.Violation  `json:"violation"`
+	All       []sim.Violation `json:"all_violations,omitempty"`
+	Digest    string         `json:"decisions_digest"`
+	Steps     uint64         `json:"n_steps"`
+	Minimised bool           `json:"minimised"`
+	Note      string         `json:"note,omitempty"`
+}
+
+func watchdog() {
+	// a wedged bubble (goroutine blocked on a mutex inside the code under
+	// test) never lets the scheduler step return
+	sig := make(chan os.Signal, 1)
+	signal.Notify(sig, syscall.SIGUSR1)
+	go func() {
+		<-sig
+		buf := make([]byte, 4<<20)
+		n := runtime.Stack(buf, true)
+		os.Stderr.Write(buf[:n])
+		os.Exit(4)
+	}()
+}
+
+var heartbeat = time.Now()
+
 func main() {
 	profile := flag.String("profile", "smoke", "profile name")
 	from := flag.Uint64("from", 1, "first seed")
+	stride := flag.Uint64("stride", 1, "seed stride")
 	n := flag.Int("n", 1, "number of seeds")
+	seconds := flag.Float64("seconds", 0, "stop after this much wall time (0 = no limit)")
 	keep := flag.Bool("trace", false, "keep and print the event trace")
+	replay := flag.String("replay", "", "replay file")
+	runplan := flag.String("runplan", "", "plan file (ReplayFile format) to run once")
+	minimise := flag.String("minimise", "", "replay file to minimise")
+	outPath := flag.String("out", "", "output path (minimise)")
+	budget := flag.Float64("budget", 60, "minimisation budget in seconds")
+	maxViol := flag.Int("maxviol", 3, "stop after this many violating runs")
+	printPlan := flag.Bool("plan", false, "print the generated plan of -from and exit")
+	knownPath := flag.String("known", "", "known findings file")
 	flag.Parse()
+	watchdog()
+
+	if *minimise != "" {
+		os.Exit(doMinimise(*minimise, *outPath, *budget))
+	}
+	if *replay != "" || *runplan != "" {
+		path := *replay
+		if path == "" {
+			path = *runplan
+		}
+		os.Exit(doReplay(path, *replay != "", *keep))
+	}
 	pr := sim.Profiles[*profile]
 	if pr == nil {
 		fmt.Fprintln(os.Stderr, "unknown profile", *profile)
 		os.Exit(2)
 	}
+	if *printPlan {
+		p := pr.Generate(*from, rng.New(rng.Derive(*from, 77)))
+		b, _ := json.MarshalIndent(p, "", " ")
+		fmt.Println(string(b))
+		return
+	}
 	enc := json.NewEncoder(os.Stdout)
+	sum := &summary{Type: "summary", Profile: *profile, Reasons: map[string]int{}, FaultKinds: map[string]int{}, Probes: map[string]int{}, Extra: map[string]int{}, Known: map[string]int{}, FirstSeed: *from}
+	knowns := loadKnown(*knownPath)
+	allh := sha256.New()
+	start := time.Now()
+	// warm-up run: lazy initialisation in dependencies happens here, not in a counted run
+	{
+		p := pr.Generate(1, rng.New(rng.Derive(1, 77)))
+		sim.RunPlan(pr, p, false)
+	}
 	for i := 0; i < *n; i++ {
-		seed := *from + uint64(i)
+		if *seconds > 0 && time.Since(start).Seconds() > *seconds {
+			break
+		}
+		seed := *from + uint64(i)**stride
 		fmt.Printf("RUN %d\n", seed)
 		p := pr.Generate(seed, rng.New(rng.Derive(seed, 77)))
-		out := sim.RunPlan(pr, p, *keep)
+		wantTrace := *keep || len(sum.Samples) < 2
+		out := sim.RunPlan(pr, p, wantTrace)
+		sum.Runs++
+		sum.LastSeed = seed
+		sum.Steps += out.Steps
+		sum.FakeNS += out.FakeNS
+		sum.Reasons[out.Reason]++
+		sum.Leaked += out.Leaked
+		for k, v := range out.Stats.FaultKinds {
+			sum.FaultKinds[k] += v
+		}
+		for k, v := range out.Stats.Probes {
+			sum.Probes[k] += v
+		}
+		for k, v := range out.Extra {
+			sum.Extra[k] += v
+		}
+		if out.Nontrivial {
+			sum.Nontrivial++
+			sum.Digests = append(sum.Digests, out.Digest)
+		}
 		if *keep {
 			for _, l := range out.Trace {
 				fmt.Println(l)
 			}
-			out.Trace = nil
 		}
-		enc.Encode(out)
+		if len(sum.Samples) < 2 && out.Nontrivial {
+			head := out.Trace
+			if len(head) > 25 {
+				head = head[:25]
+			}
+			sm := map[string]any{"seed": seed, "steps": out.Steps, "digest": out.Digest, "reason": out.Reason,
+				"tasks": p.Tasks, "faults": p.Faults, "conn_faults": p.ConnFaults, "layout_tables": len(p.Layout.Tables), "servers": p.Layout.Servers, "event_log_head": head}
+			b, _ := json.Marshal(sm)
+			sum.Samples = append(sum.Samples, b)
+		}
+		out.Trace = nil
+		fmt.Fprintf(allh, "%d %s %d %d\n", seed, out.Digest, out.Steps, len(out.Violations))
+		if out.Panic != "" {
+			out.Violations = append(out.Violations, sim.Violation{Prop: pr.Prop, Oracle: "panic", Msg: out.Panic})
+		}
+		if len(knowns) > 0 && len(out.Violations) > 0 {
+			var rest []sim.Violation
+			for _, v := range out.Violations {
+				hit := false
+				for _, k := range knowns {
+					if k.prop == v.Prop && k.oracle == v.Oracle && strings.Contains(v.Msg, k.match) {
+						sum.Known[k.prop+" "+k.oracle+" "+k.match]++
+						hit = true
+						break
+					}
+				}
+				if !hit {
+					rest = append(rest, v)
+				}
+			}
+			out.Violations = rest
+		}
+		if len(out.Violations) > 0 {
+			sum.Violations++
+			rf := ReplayFile{Property: out.Violations[0].Prop, Profile: *profile, Seed: seed, Plan: p, Violation: out.Violations[0], All: out.Violations, Digest: out.Digest, Steps: out.Steps}
+			b, _ := json.Marshal(rf)
+			fmt.Printf("VIOL %s\n", b)
+			if sum.Violations >= *maxViol {
+				break
+			}
+		}
 	}
+	sum.WallS = time.Since(start).Seconds()
+	sum.AllDigest = hex.EncodeToString(allh.Sum(nil))[:24]
+	sort.Strings(sum.Digests)
+	fmt.Print("SUMMARY ")
+	enc.Encode(sum)
+}
+
+func loadReplay(path string) (*ReplayFile, *sim.Profile) {
+	b, err := os.ReadFile(path)
+	if err != nil {
+		fmt.Fprintln(os.Stderr, err)
+		os.Exit(2)
+	}
+	rf := &ReplayFile{}
+	if err := json.Unmarshal(b, rf); err != nil {
+		fmt.Fprintln(os.Stderr, "bad replay file:", err)
+		os.Exit(2)
+	}
+	pr := sim.Profiles[rf.Profile]
+	if pr == nil {
+		fmt.Fprintln(os.Stderr, "unknown profile", rf.Profile)
+		os.Exit(2)
+	}
+	return rf, pr
+}
+
+func sameViolation(want sim.Violation, got []sim.Violation) *sim.Violation {
+	for i := range got {
+		if got[i].Prop == want.Prop && got[i].Oracle == want.Oracle {
+			return &got[i]
+		}
+	}
+	return nil
+}
+
+func doReplay(path string, strict bool, keep bool) int {
+	rf, pr := loadReplay(path)
+	// warm-up, as in the worker
+	{
+		p := pr.Generate(1, rng.New(rng.Derive(1, 77)))
+		sim.RunPlan(pr, p, false)
+	}
+	fmt.Printf("RUN %d\n", rf.Seed)
+	out := sim.RunPlan(pr, rf.Plan, keep)
+	if keep {
+		for _, l := range out.Trace {
+			fmt.Println(l)
+		}
+	}
+	out.Trace = nil
+	if out.Panic != "" {
+		out.Violations = append(out.Violations, sim.Violation{Prop: pr.Prop, Oracle: "panic", Msg: out.Panic})
+	}
+	b, _ := json.Marshal(out)
+	fmt.Printf("OUTCOME %s\n", b)
+	if !strict {
+		return 0
+	}
+	v := sameViolation(rf.Violation, out.Violations)
+	if v == nil {
+		fmt.Printf("NOT-REPRODUCED property=%s oracle=%s\n", rf.Violation.Prop, rf.Violation.Oracle)
+		return 3
+	}
+	if rf.Digest != "" && rf.Digest != out.Digest {
+		fmt.Printf("NOT-REPRODUCED digest differs: file %s run %s\n", rf.Digest, out.Digest)
+		return 3
+	}
+	fmt.Printf("REPRODUCED property=%s oracle=%s step=%d msg=%s\n", v.Prop, v.Oracle, v.Step, v.Msg)
+	return 1
 }
